@@ -89,6 +89,19 @@ func genC08Plan(r *zsim.Rng) *sysPlan {
 	if r.Chance(1, 6) {
 		p.Tail = []int{1, 50, 100, 150, 1000}[r.Intn(5)]
 	}
+	if r.Chance(1, 8) {
+		// aimed at the hand-over at the end of a reload-sync: lines are excluded, a slow reload-sync replaces
+		// the input, and the user goes on typing (or re-sorting) while it is still being read
+		p.Events = append(p.Events, sysEvent{Kind: "settle"}, sysEvent{Kind: "keys", Keys: "alt-x"}, sysEvent{Kind: "settle"},
+			sysEvent{Kind: "keys", Keys: "alt-y"})
+		for k := r.Range(1, 3); k > 0; k-- {
+			p.Events = append(p.Events, sysEvent{Kind: "keys", DelayMs: []int{1, 5, 30, 100}[r.Intn(4)], Keys: pick(r, "a", "b", "alt-s", "bspace", "alt-c")})
+		}
+		p.GenProc = []procSpec{{Chunks: []int{r.Range(1, 50)}, DelaysMs: []int{[]int{20, 60, 150, 500}[r.Intn(4)]}}}
+		if p.Gens[1].N < 3 {
+			p.Gens[1].N = r.Range(3, 200)
+		}
+	}
 	nev := r.Range(1, 22)
 	for i := 0; i < nev; i++ {
 		ev := sysEvent{DelayMs: genDelay(r), Kind: "keys"}
